@@ -82,7 +82,7 @@ theorem nofs_writeAll (fd : Handle) (fuel : Nat) (data : Bytes) : Calls NotFsync
     simp only [bind_eq, pure_eq, call_bind]
     repeat' (first | exact ih _ | nofs_step)
 
-theorem nofs_execP (fdin : Option Handle) : Calls NotFsync (execP fdin) := by
+theorem nofs_execP (argv : List Bytes) (fdin : Option Handle) : Calls NotFsync (execP argv fdin) := by
   unfold execP
   simp only [bind_eq, pure_eq, call_bind]
   repeat' nofs_step
@@ -337,7 +337,7 @@ theorem di_execOne (env : PEnv) (mh : Match) (st : ExecSt) {w : World} {p0 n0 : 
         · exact .inl h
         · right; simp [h]
       · exact Calls.ret_intro' _
-    · repeat' (first | exact nofs_execP _ | nofs_step)
+    · repeat' (first | exact nofs_execP _ _ | nofs_step)
   · exact hdi
 
 end
